@@ -24,7 +24,7 @@ CLAIMED = {
        "reference HKDF/HMAC/SHA-2 are run on fresh random inputs and compared byte for byte (~58k derivations quick). Transcript values (Props.C13Transcript: "
        "interim_confirmed_chain, membership_tag_chain, confirmed_binds, interim_binds): the confirmed and interim transcript hash of every public commit and the membership tag of every "
        "public commit / proposal of random mixed-provider histories are recomputed by the model from the RAW message bytes (decoded with the generated codec records of C12) and compared "
-       "with the members' values (`th` / `mtag` rows; the repository's interop transcript vectors are `#guard`-checked as well).",
+       "with the members' values (`th` / `mtag` rows; the repository's interop transcript vectors are `#guard`-checked as well). `thp` rows: the same two hashes for ENCRYPTED commits (wire format 2) from the FramedContent, signature and tag a receiver decrypts (hook verif_open_private_message).",
   note="Trusted: Lean kernel; Lean SHA-2/HMAC/HKDF reference (checked against published vectors and python hashlib, not proved); hand-written model validated by the "
        "byte-level correspondence. Straight-line parts of the schedule are near-rfl; content is in the secret tree, ratchet, PSK chain. Transcript hashes and membership tags of ENCRYPTED handshake "
        "messages are exercised by the group-level agreement oracle only. "
